@@ -518,3 +518,16 @@ package encode
 //@   at call encodeNatural#3 assert [C01.reset.meta.palette C13.enc.meta.palette] checkonly (and (not (forall ((j!q (_ BitVec 64))) (! (=> (bvult j!q #x0000000000000040) (= (select palette j!q) (select ivg.DefaultPalette j!q))) :pattern ((select palette j!q))))) (= (len e.altBuf) (int 0)) (= arg1 #x00000001))
 //@   at call encodeNatural#4 assert [C01.reset.meta.length C13.enc.meta.length] (= arg1 ((_ extract 31 0) (len e.altBuf)))
 //@   invariant 0 [C01.reset.trim C13.enc.trim] (forall ((j!t (_ BitVec 64))) (! (=> (and (bvslt n j!t) (bvsle j!t (int 63))) (= (select PAL j!t) (mk-color.RGBA #x00 #x00 #x00 #xff))) :pattern ((select PAL j!t))))
+// suggested-palette payload (C09, C01): each writing loop starts behind the two header bytes MID 1 and (N | format),
+// writes one entry of its width per iteration, and hands the 1 and 2 byte encoders the palette entry of that iteration
+//@   invariant 2 [C09.reset.pal.header C01.reset.pal.header] (and (bvsle (int -1) rangeindex) (bvsle rangeindex after:n) (= (len e.altBuf) (bvadd (int 2) (bvmul (int 1) (bvadd rangeindex (int 1))))) (=> (= rangeindex (int -1)) (and (= (at e.altBuf (int 0)) #x02) (= (at e.altBuf (int 1)) (bvor ((_ extract 7 0) after:n) #x00)))))
+//@   invariant 3 [C09.reset.pal.header C01.reset.pal.header] (and (bvsle (int -1) rangeindex) (bvsle rangeindex after:n) (= (len e.altBuf) (bvadd (int 2) (bvmul (int 2) (bvadd rangeindex (int 1))))) (=> (= rangeindex (int -1)) (and (= (at e.altBuf (int 0)) #x02) (= (at e.altBuf (int 1)) (bvor ((_ extract 7 0) after:n) #x40)))))
+//@   invariant 4 [C09.reset.pal.header C01.reset.pal.header] (and (bvsle (int -1) rangeindex) (bvsle rangeindex after:n) (= (len e.altBuf) (bvadd (int 2) (bvmul (int 3) (bvadd rangeindex (int 1))))) (=> (= rangeindex (int -1)) (and (= (at e.altBuf (int 0)) #x02) (= (at e.altBuf (int 1)) (bvor ((_ extract 7 0) after:n) #x80)))))
+//@   invariant 5 [C09.reset.pal.header C01.reset.pal.header] (and (bvsle (int -1) rangeindex) (bvsle rangeindex after:n) (= (len e.altBuf) (bvadd (int 2) (bvmul (int 4) (bvadd rangeindex (int 1))))) (=> (= rangeindex (int -1)) (and (= (at e.altBuf (int 0)) #x02) (= (at e.altBuf (int 1)) (bvor ((_ extract 7 0) after:n) #xc0)))))
+//@   at call RGBAColor#0 assert [C09.reset.pal.entry C01.reset.pal.entry] (= arg0 (select PAL (bvadd phi:rangeindex (int 1))))
+//@   at call RGBAColor#1 assert [C09.reset.pal.entry C01.reset.pal.entry] (= arg0 (select PAL (bvadd phi:rangeindex (int 1))))
+// ... and the bytes it has just appended are that entry in the loop's form (the grammar's colour decoders read them back as it)
+//@   invariant 2 [C09.reset.pal.last1 C01.reset.pal.last] (=> (bvsle (int 0) rangeindex) (= (spec.color1 (at e.altBuf (bvsub (len e.altBuf) (int 1)))) (spec.colRGBA (select PAL rangeindex))))
+//@   invariant 3 [C09.reset.pal.last2 C01.reset.pal.last] (=> (bvsle (int 0) rangeindex) (= (spec.color2 (at e.altBuf (bvsub (len e.altBuf) (int 2))) (at e.altBuf (bvsub (len e.altBuf) (int 1)))) (spec.colRGBA (select PAL rangeindex))))
+//@   invariant 4 [C09.reset.pal.last3 C01.reset.pal.last] (=> (bvsle (int 0) rangeindex) (= (spec.color3d (at e.altBuf (bvsub (len e.altBuf) (int 3))) (at e.altBuf (bvsub (len e.altBuf) (int 2))) (at e.altBuf (bvsub (len e.altBuf) (int 1)))) (spec.colRGBA (select PAL rangeindex))))
+//@   invariant 5 [C09.reset.pal.last4 C01.reset.pal.last] (=> (bvsle (int 0) rangeindex) (= (spec.color4 (at e.altBuf (bvsub (len e.altBuf) (int 4))) (at e.altBuf (bvsub (len e.altBuf) (int 3))) (at e.altBuf (bvsub (len e.altBuf) (int 2))) (at e.altBuf (bvsub (len e.altBuf) (int 1)))) (spec.colRGBA (select PAL rangeindex))))
